@@ -211,3 +211,59 @@ Lemma ex_contract_examples :
   wf_history ex_cfg ex_history = true /\ wf_history ex_cfg ex_history_reset = true /\
   wf_history ex_cfg [OpRec (ex_rec true 10 1000 1000); OpRec (ex_rec true 10 3000 2000)] = false.
 Proof. exact (conj ex_history_wf (conj ex_history_reset_wf ex_breach_not_wf)). Qed.
+
+(* ---------------------------------------------------------------- mixed layouts: the order of the fields is irrelevant *)
+(* the fields of r in the order given by names *)
+Definition reorder (names : list string) (r : record) : record :=
+  flat_map (fun n => match get r n with Some v => [(n, v)] | None => [] end) names.
+(* another layout of the same template: the forward and the reverse counters in each other's
+   places (they share the element id and differ in the enterprise number only), key fields last *)
+Definition ex_layout_swapped : list string :=
+  ["flowType"; "tcpState"; "flowEndReason"; "flowEndSeconds"; "flowStartSeconds";
+   "reversePacketTotalCount"; "reversePacketDeltaCount"; "reverseOctetTotalCount";
+   "packetTotalCount"; "packetDeltaCount"; "octetTotalCount";
+   "destinationPodName"; "sourcePodName"; "protocolIdentifier"; "destinationTransportPort";
+   "sourceTransportPort"; "destinationIPv4Address"; "sourceIPv4Address"].
+(* two records of the source node, the second one with its fields in reverse order *)
+Definition ex_mixed2 : list op :=
+  [OpRec (ex_rec true 10 1000 1000); OpRec (rev (ex_rec true 20 3000 2000))].
+(* the worked history with three layouts: as is, reversed, counters swapped, reversed *)
+Definition ex_mixed4 : list op :=
+  [OpRec (ex_rec true 10 1000 1000); OpRec (rev (ex_rec true 20 3000 2000));
+   OpRec (reorder ex_layout_swapped (ex_rec false 12 900 900)); OpRec (rev (ex_rec false 25 2800 1900))].
+Definition ex_view_of (h : list op) :=
+  option_map (fun fl => let a := abs ex_cfg (fl_rec fl) in
+                        (f_end a, f_stat a, f_tp a, a_stat (f_src a), a_stat (f_dst a)))
+             (lookup (run ex_cfg h) ex_key).
+
+(* inside the hypotheses of the C05 theorems (and outside the former same-order hypothesis); the
+   aggregated record is what the closed forms say: end 20, packet delta 1000 + 2000, totals of
+   the latest record - the reverse packet total is 15, not the forward 30 -, throughput
+   8 x (3000 - 1000) / (20 - 10) and 8 x (1500 - 500) / (20 - 10) *)
+Lemma ex_mixed2_ok :
+  wf_history ex_cfg ex_mixed2 = true /\ typed_history_ordered ex_cfg ex_mixed2 = false /\
+  ex_view_of ex_mixed2 =
+    Some (20, [30; 3000; 3000; 15; 2; 1500], [1600; 800], [30; 3000; 3000; 15; 2; 1500], [0; 0; 0; 0; 0; 0]) /\
+  (let evs := events_of ex_cfg ex_mixed2 ex_key in
+   maxl (ends evs) = 20 /\ node_tp SrcNode evs = [1600; 800] /\
+   node_delta SrcNode 1 evs = 3000 /\ node_delta SrcNode 4 evs = 2 /\
+   map (fun i => node_total SrcNode i evs) [0; 2; 3; 5]%nat = [30; 3000; 15; 1500]).
+Proof. split; [|split; [|split; [|cbv zeta; split; [|split; [|split; [|split]]]]]]; vm_compute; reflexivity. Qed.
+(* the layout of the records does not show in the result: the same values as for the worked
+   history in one layout, and the stored record keeps the layout of the flow's first record *)
+Lemma ex_mixed4_ok :
+  wf_history ex_cfg ex_mixed4 = true /\ typed_history_ordered ex_cfg ex_mixed4 = false /\
+  ex_view_of ex_mixed4 = ex_view_of ex_history /\
+  option_map (fun fl => firstn 18 (map fst (fl_rec fl))) (lookup (run ex_cfg ex_mixed4) ex_key)
+    = Some (map fst (ex_rec true 0 0 0)).
+Proof. split; [|split; [|split]]; vm_compute; reflexivity. Qed.
+(* the general reason: a permutation of a record with distinct names has an equivalent template
+   and reads alike under every name *)
+Lemma ex_rev_equiv : forall s e o d,
+  shape_equiv (shape (ex_rec s e o d)) (shape (rev (ex_rec s e o d))) = true /\
+  forall n, get (rev (ex_rec s e o d)) n = get (ex_rec s e o d) n.
+Proof.
+  intros. apply record_perm_equiv.
+  - unfold ex_rec. cbn [map fst]. apply nodupb_NoDup. vm_compute. reflexivity.
+  - apply Permutation.Permutation_rev.
+Qed.
